@@ -244,7 +244,7 @@ def random_warning_flags(rng):
     return flags
 
 
-def make_cli_case(rng, profile=None, n_err=None, n_warn=None, allow_stdin=True, want_outputs=None):
+def make_cli_case(rng, profile=None, n_err=None, n_warn=None, allow_stdin=True, want_outputs=None, force_lst=False):
     g = gen.Gen(rng, profile)
     prog = g.program(CWD)
     if n_err is None:
@@ -252,10 +252,10 @@ def make_cli_case(rng, profile=None, n_err=None, n_warn=None, allow_stdin=True, 
     if n_warn is None:
         n_warn = rng.choice([0, 0, 1, 1, 2, 3])
     plant(rng, prog, n_err, n_warn)
-    return finish_cli_case(rng, prog, allow_stdin=allow_stdin, want_outputs=want_outputs)
+    return finish_cli_case(rng, prog, allow_stdin=allow_stdin, want_outputs=want_outputs, force_lst=force_lst)
 
 
-def finish_cli_case(rng, prog, allow_stdin=True, want_outputs=None):
+def finish_cli_case(rng, prog, allow_stdin=True, want_outputs=None, force_lst=False):
     """argv, disk layout and expected outputs for an already generated program."""
     charset = rng.choice(CHARSETS) if rng.random() < 0.4 else "bk"
     prog.charset = charset
@@ -314,7 +314,7 @@ def finish_cli_case(rng, prog, allow_stdin=True, want_outputs=None):
     if rng.random() < (0.3 if want_outputs is None else 0.5):
         info["implicit_bin"] = True
         opts.append(["--implicit-bin"])
-    if rng.random() < 0.4:
+    if rng.random() < 0.4 or force_lst:
         info["lst"] = True
         opts.append(["--lst"])
     if charset != "bk" or rng.random() < 0.1:
